@@ -45,6 +45,7 @@ var treeShapes = []treeShape{
 	{"descendant-ignores-sigterm", `echo PID:$$; sh -c 'trap "" TERM; echo PID:$$; sleep 311; :' & echo PID:$!; wait`, false},
 	{"root-ignores-sigterm", `trap "" TERM; echo PID:$$; sleep 311 & echo PID:$!; wait; :`, false},
 	{"parent-exits-before-its-child", `echo PID:$$; sleep 311 & echo PID:$!; exit 0`, true},
+	{"parent-exits-child-detached-from-the-pipes", `echo PID:$$; sleep 311 >/dev/null 2>&1 & echo PID:$!; exit 0`, true},
 }
 
 var pidRe = regexp.MustCompile(`PID:(\d+)`)
